@@ -1222,6 +1222,17 @@ class GroupBy:
         ddof: int = 1,
         observed_only: bool = True,
     ):
+        if transform and isinstance(values, (pl.Series, pl.DataFrame)):
+            # the pieces below are combined with pandas/NumPy arithmetic: go through pandas
+            # and hand back the container the caller gave us
+            result = self.var(
+                values.to_pandas(),
+                mask=mask,
+                transform=True,
+                ddof=ddof,
+                observed_only=observed_only,
+            )
+            return pl.from_pandas(result)
         kwargs = dict(
             mask=mask, margins=margins, transform=transform, observed_only=observed_only
         )
@@ -1539,6 +1550,9 @@ class GroupBy:
         result = self._maybe_squeeze_to_1d(
             result_df, values=values, n_values=len(value_list)
         )
+        if transform and self._values_is_polars(type_list):
+            # row-aligned output follows the container of the input
+            result = pl.from_pandas(result)
 
         return result
 
